@@ -106,25 +106,39 @@ def _volatile_table():
 
 
 def _compile_flag_table():
-    """AstBuilder.compile: the pre-evaluation dispatch receives COMPILING -> True, and the value stored for
-    the compiled function is False (statement order read from the AST)."""
-    from pyvc.interp import file_ast
-    import formulas.builder as fb
-    tree = file_ast(fb.__file__)[0]
-    fn = next(n for n in _ast.walk(tree) if isinstance(n, _ast.FunctionDef) and n.name == 'compile')
-    src = [_ast.unparse(s) for s in fn.body]
+    """Ground facts about the real compilation paths (behavioural, independent of statement order): while a formula is compiled the
+    volatile functions are called with the compiling flag set (or not at all), and every call of the compiled function passes it
+    unset - observed by registering a spy function with the same `extra_inputs` declaration as NOW / RAND."""
+    import collections
+    import formulas
+    from formulas.functions import COMPILING
+    F = formulas.get_functions()
+    seen = []
 
-    def idx(pred):
-        return next((i for i, s in enumerate(src) if pred(s)), None)
-    i_true = idx(lambda s: s.replace(' ', '') == 'inp[COMPILING]=True')
-    i_call = idx(lambda s: 'dsp(inp)' in s.replace(' ', ''))
-    i_false = idx(lambda s: s.replace(' ', '') == 'res[COMPILING]=False')
-    out = [
-        dict(name='T:compile/pre-evaluation-runs-with-COMPILING-True', ok=i_true is not None and i_call is not None and i_true < i_call,
-             kind='P', detail='inp[COMPILING] = True must precede res = dsp(inp) in AstBuilder.compile', witness='=NOW() compiled once, called twice'),
-        dict(name='T:compile/compiled-function-stores-COMPILING-False', ok=i_false is not None and i_call is not None and i_false > i_call,
-             kind='P', detail='res[COMPILING] = False must follow the pre-evaluation in AstBuilder.compile', witness='=NOW() compiled once, called twice'),
-    ]
+    def spy(compiling, *a):
+        seen.append(compiling)
+        return sh.NONE if compiling else 42.0
+    F['VERIFSPY'] = {'extra_inputs': collections.OrderedDict([(COMPILING, False)]), 'function': spy}
+    out = []
+    try:
+        for label, text in (('bare', '=VERIFSPY()'), ('nested', '=1+IF(TRUE,VERIFSPY(),0)'), ('with-input', '=A1+VERIFSPY()')):
+            del seen[:]
+            try:
+                f = formulas.Parser().ast(text)[1].compile()
+                during = list(seen)
+                del seen[:]
+                args = [1.0] * len(f.inputs)
+                v1 = f(*args)
+                v2 = f(*args)
+                after = list(seen)
+                ok = all(c is True for c in during) and len(after) == 2 and all(c is False for c in after)
+                detail = 'flag values seen while compiling %r, on two calls %r (results %r, %r)' % (during, after, v1, v2)
+            except Exception as ex:
+                ok, detail = False, 'raised %s: %s' % (type(ex).__name__, str(ex)[:80])
+            out.append(dict(name='T:compile/volatile-calls-see-the-compiling-flag-only-while-compiling/%s' % label, ok=ok, kind='P', detail=detail,
+                            witness='%s compiled once, called twice' % text.replace('VERIFSPY', 'NOW')))
+    finally:
+        F.pop('VERIFSPY', None)
     return out
 
 
